@@ -101,6 +101,8 @@ PruneViol(x) ==
     (IF MustKeep(x.after_journal, lj, lw) = MustKeep(x.before_journal, lj, lw)
         /\ \A i \in DOMAIN x.after_journal : DerivedFrom(x.after_journal[i], x.before_journal)
      THEN {} ELSE {"C12_OnlyDeadRemoved"}) \cup
+    \* the server keeps its identifier over a restart - also over a restart from the pruned journal
+    (IF x.before.ok /\ x.after.ok /\ x.before.uid # "" /\ x.after.uid # x.before.uid THEN {"C11_UidKeptAfterPrune"} ELSE {}) \cup
     (IF x.reprune_same THEN {} ELSE {"C12_PruneIdempotent"}) \cup
     (IF x.append_ok THEN {} ELSE {"C12_PrunedAppendable"})
 
